@@ -201,9 +201,20 @@ class Recorder:
         if self.extra.get('snap_cache'):
             c = self.extra.get('ids_cached')
             if c is None:
-                c = self.extra['ids_cached'] = {tuple(path): id(node) for path, node in st.depth()}
+                c = self.extra['ids_cached'] = self._idmap(st)
             return c
-        return {tuple(path): id(node) for path, node in st.depth()}
+        return self._idmap(st)
+
+    @staticmethod
+    def _idmap(st):
+        out = {}
+        for path, node in st.depth():
+            out[tuple(path)] = id(node)
+            v = node.value
+            if _is_process(v):
+                # identity of the process object held by the node
+                out[('<P>',) + tuple(path)] = id(getattr(v, '_verif_wraps', v))
+        return out
 
     # -- log ------------------------------------------------------------
     def ev(self, kind, **kw):
